@@ -193,21 +193,19 @@ def translate(pins=None):
                "Proof. exact (C24_edit_graph_acyclic gen_cfg). Qed.\n")
     out.append("Lemma C24_gen_terminates : forall ops, exists s, run gen_cfg init ops = Some s.\n"
                "Proof. exact (C24_walk_terminates gen_cfg). Qed.\n")
-    strict = cfg["dedupe"] and cfg["skip_current"]
-    out.append("(* the bounded refinement sweep for this configuration *)\n")
-    out.append(f"Lemma C24_gen_sweep : sweep gen_cfg {b(strict)} 4 init [] = true.\n")
-    if not any(cfg.values()):
-        out.append("Proof. exact sweep_shipped_4. Qed.\n")
-    elif all(cfg.values()):
-        out.append("Proof. exact sweep_fixed_4. Qed.\n")
-    else:
-        out.append("Proof. vm_compute. reflexivity. Qed.\n")
-    out.append("Lemma C24_gen_refines : forall ops, in_scope ops -> ok_for gen_cfg ops ->\n"
-               "  exists s, run gen_cfg init ops = Some s /\\ run_log gen_cfg init ops = repeat 0 (length ops) /\\\n"
-               "    forall e, In e sw_ents ->\n"
-               "      (forall k v, In (k, v) (cur_pairs s e) <-> spec_has (spec_run ops) e k v = true) /\\\n"
-               f"      ({b(strict)} = true -> NoDup (cur_pairs s e)).\n"
-               f"Proof. exact (refines_of_sweep gen_cfg {b(strict)} C24_gen_sweep). Qed.\n")
+    out.append("Lemma C24_gen_superseded : forall ops s, run gen_cfg init ops = Some s ->\n"
+               "  forall i r, nth_error (rows s) i = Some r -> (r_cur r = false <-> superseded s i = true).\n"
+               "Proof. intros ops s H. exact (proj2 (C24_current_iff_not_superseded gen_cfg ops s H)). Qed.\n")
+    out.append("(* the refinement to the key-value model, for the configuration the code has now *)\n")
+    out.append("Lemma C24_gen_refines : forall ops s, ok_for gen_cfg ops -> run gen_cfg init ops = Some s ->\n"
+               "  (forall e k v, In (k, v) (cur_pairs s e) <-> spec_has (spec_run ops) e k v = true) /\\\n"
+               "  ~ In 1 (run_log gen_cfg init ops).\n"
+               "Proof. exact (C24_refines_set gen_cfg). Qed.\n")
+    if all(cfg.values()):
+        out.append("Lemma C24_gen_ok_for_all : forall ops, ok_for gen_cfg ops.\nProof. exact fixed_ok_for_all. Qed.\n")
+        out.append("Lemma C24_gen_nodup : forall ops, in_scope ops ->\n"
+                   "  exists s, run gen_cfg init ops = Some s /\\ forall e, In e sw_ents -> NoDup (cur_pairs s e).\n"
+                   "Proof. exact C24_listing_nodup_fixed_bounded. Qed.\n")
     notes.append(f"record_tags={v_rt} delete_tags={v_dt} cli_flags={cli_flags} hash_fields={fields}")
     return "".join(out), dict(cfg=cfg, variant_record_tags=v_rt, variant_delete_tags=v_dt, cli=cli_flags,
                               fields=fields, default_current=default_current, notes=notes)
